@@ -37,6 +37,15 @@ CLAIMS = {
              "paths. These are who-may-write and must-pass-through facts over all paths incl. the never-tested recovery arm.",
         technique="who-may-write field scan over all MIR bodies, store-shape classification, dominance / must-pass-through, value provenance",
         ref="DESIGN.md §3 C08"),
+    "C10": dict(
+        text="Decides structural clauses of C10: R10.1 every WalEntry built from raw bytes is dominated by the length test and the "
+             "CRC-equality edge over the very data it returns; the reader loop takes entries only from decode, stops at the first "
+             "None and advances by the consumed size; R10.2 checksum coverage of decoded fields (known finding: timestamp); R10.3 "
+             "per-file Err edges continue the loop, files sorted first; R10.4 every delete in truncate_before is guarded by "
+             "not-the-active-file and by is_empty or max-over-all-entries <= T; R10.6 the decoder rejects only for truncation or "
+             "checksum mismatch. Guards are facts about all paths; corruption offsets cannot be enumerated by tests.",
+        technique="MIR guard/dominance analysis (edge-conditions dominating a site), value provenance through iterator chains, controlling-switch classification",
+        ref="DESIGN.md §3 C10"),
 }
 
 PENDING_REASON = "check not built yet (build in progress; DESIGN.md §3 lists the planned structural clauses)"
